@@ -199,7 +199,7 @@ func (s *BufferedWriteSyncer) Stop() (err error) {
 	stopped := func() bool {
 		s.mu.Lock()
 		defer s.mu.Unlock()
-		defer verifHook("bws.s.body", s, 0, 0)
+		verifHook("bws.s.body", s, 0, 0)
 
 		if !s.initialized {
 			return false
